@@ -93,6 +93,33 @@ def check_shape(model, rep):
             configs.append(['zero' if i == pos else None for i in range(n)])
     configs.append(['zero', 'p'])
     configs.append(['p', 'zero'])
+    # the rule list is the private list add_rule appends its argument to (evaluated, not matched as text)
+    ar = model.find_member('PWMControl', 'add_rule')
+    rules_field = None
+    if ar is not None:
+        par = ar.node.args.args[1].arg
+        sx0 = SX(model)
+        outs0 = sx0.run(ar.node, ar.module, 'PWMControl', Ov('self', 'PWMControl', True), {par: Ov('the-rule', 'RuleBase', False)})
+        done0 = [o for o in outs0 if o.kind in ('fall', 'return')]
+        fields = set()
+        for o in done0:
+            hit = [e for e in o.state.effects if e[0] == 'opaque-call' and e[1].endswith('.append') and len(e[2]) == 1
+                   and getattr(e[2][0], 'path', None) == 'the-rule']
+            fields.add(hit[0][1][:-len('.append')] if len(hit) == 1 else None)
+        appended = None
+        if len(fields) == 1 and None not in fields and done0:
+            appended = fields.pop()               # e.g. 'self.rules' (private field named by its public property)
+            for n in ast.walk(ar.node):
+                if isinstance(n, ast.Call) and isinstance(n.func, ast.Attribute) and n.func.attr == 'append' \
+                        and isinstance(n.func.value, ast.Attribute) and isinstance(n.func.value.value, ast.Name) \
+                        and n.func.value.value.id == 'self':
+                    rules_field = model.mangle('PWMControl', n.func.value.attr)
+        rep.decide(rules_field is not None, 'C14.shape', 'PWMControl.add_rule',
+                   'add_rule does not append its argument to one list of the controller on every accepting path', loc=ar.loc)
+    if rules_field is None:
+        if ar is None:
+            rep.cannot('C14.shape', 'PWMControl.add_rule', 'method not found')
+        return
     per_k = {}          # k -> [problem strings]
     clip_bad = None
     zero_bad = None
@@ -111,7 +138,7 @@ def check_shape(model, rep):
             return None
         sx.call_hook = hook
         st = sxm.State(env={})
-        st.heap[('self', '_PWMControl__rules')] = sxm.Tv([Ov(f'rule{i}', 'RuleBase', False) for i in range(len(cfg))])
+        st.heap[('self', rules_field)] = sxm.Tv([Ov(f'rule{i}', 'RuleBase', False) for i in range(len(cfg))])
         try:
             outs = sx.run(m.node, m.module, 'PWMControl', Ov('self', 'PWMControl', True), {}, st)
         except CannotDecide as e:
@@ -283,16 +310,16 @@ def check_range(model, rep):
     has_init = any(isinstance(a, ast.Assign) and any(isinstance(t, ast.Attribute) and t.attr == '__pwm' for t in a.targets)
                    and isinstance(a.value, ast.Constant) and a.value.value in (1, 1.0) for a in ast.walk(init.node))
     rep.decide(has_init, 'C14.range', 'DCMotor.__init__:pwm', 'the constructor does not initialise the duty cycle to 1', loc=init.loc)
-    # rules registered with add_rule are the rules apply_rules asks
-    ar = model.find_member('PWMControl', 'add_rule')
-    src = ast.unparse(ar.node) if ar else ''
-    rep.decide(ar is not None and 'self.__rules.append(rule)' in src, 'C14.shape', 'PWMControl.add_rule',
-               'add_rule does not append the rule to the list apply_rules iterates over', loc=ar.loc if ar else '')
-    # recorder appends the live pwm
-    m = model.member('DCMotor', 'update_time_variables')
-    src = ast.unparse(m.node)
-    rep.decide("'pwm'" in src and 'self.pwm' in src, 'C14.range', 'DCMotor.update_time_variables[pwm]',
-               'the recorder does not append self.pwm under the key pwm', loc=m.loc)
+    # recorder appends the live pwm: the per-class recorder evaluation of C17, restricted to the motor's pwm key
+    from sa.core import Report
+    from checks.c17 import check_classes
+    dep = Report('C17')
+    check_classes(model, dep)
+    got = [i for i in dep.instances if i.rule in ('C17.one', 'C17.guards') and i.construct.startswith('DCMotor[') and 'pwm' in i.construct]
+    for i in got:
+        (rep.holds if i.status == 'HOLDS' else rep.violation)('C14.range.recorded', i.construct, i.detail, i.loc)
+    if not got:
+        rep.cannot('C14.range.recorded', 'DCMotor[pwm]', 'the recorder instance for the pwm key was not produced')
 
 
 def check_once(model, rep):
